@@ -65,4 +65,5 @@ BootOK(e) ==
   /\ ~e.panic /\ ~e.err
   /\ e.outlvl = e.resmax /\ e.scaleok
   /\ e.precbits >= e.logscale - e.logn - 12
+  /\ e.precbits >= e.announced              \* iterated mode: the sum of the announced per-iteration precisions (minus 5 bits)
 =============================================================================
